@@ -1238,6 +1238,7 @@ package lisp
 //@   property C01 C02
 
 //@ func opProgn
+//@   keeps LVal.sealed
 //@   uses singletons
 //@   requires rtOK(env) && argsOK(args, 0)
 //@   ghost    nev : int
